@@ -361,15 +361,36 @@ def rule_endfill(ctx):
         if moves and not cal:
             raise AnalysisError("_retrieve_time_coverage: re-binding of end_date in the roll-over is not understood: %s" % str(norm(moves[0]))[:80])
         if cal:
-            # the number of months comes from a table keyed by the month / year entries of _temporal_resolution
-            tabs = [d_ for d_ in ast.walk(st) if isinstance(d_, ast.Dict) and len(d_.keys) == 2]
-            keyed = False
-            for d_ in tabs:
-                ent = {str(norm(k_)).replace('"', "'"): const_value(v_) for k_, v_ in zip(d_.keys, d_.values) if isinstance(v_, ast.Constant)}
-                if ent == {"self._temporal_resolution['month']": 1, "self._temporal_resolution['year']": 12}:
-                    keyed = True
+            # how many calendar months are added for a superior period of one month / one year / anything else: decided under the
+            # three assumptions about self._end_time_superior (a table keyed by the entries of _temporal_resolution, or an if / elif chain)
+            SUP = "self._end_time_superior"
+            M_, Y_ = "self._temporal_resolution['month']", "self._temporal_resolution['year']"
+
+            def assume(which):
+                a_ = {}
+                for q_ in ("'", '"'):
+                    m_, y_ = M_.replace("'", q_), Y_.replace("'", q_)
+                    a_["%s == %s" % (SUP, m_)] = which == "month"
+                    a_["%s == %s" % (m_, SUP)] = which == "month"
+                    a_["%s == %s" % (SUP, y_)] = which == "year"
+                    a_["%s == %s" % (y_, SUP)] = which == "year"
+                return a_
+            kwv = [k_.value for c_ in cal for k_ in c_.keywords if k_.arg == "months"]
+            got_m = {}
+            if len(kwv) == 1:
+                for which in ("month", "year", "other"):
+                    v_ = flow.resolve_under(kwv[0], assume(which), at=cal[0], depth=3)
+                    # a table look-up {month entry: 1, year entry: 12}.get(superior[, None])
+                    if isinstance(v_, ast.Call) and isinstance(v_.func, ast.Attribute) and v_.func.attr == "get" and isinstance(v_.func.value, ast.Dict) and v_.args \
+                            and str(norm(v_.args[0])) == SUP:
+                        ent = {str(norm(k_)).replace('"', "'"): v2_ for k_, v2_ in zip(v_.func.value.keys, v_.func.value.values)}
+                        v_ = ent.get({"month": M_, "year": Y_}.get(which), v_.args[1] if len(v_.args) > 1 else ast.Constant(None))
+                    got_m[which] = const_value(v_) if isinstance(v_, ast.Constant) else str(norm(v_))
             kw_ = {k_.arg for c_ in cal for k_ in c_.keywords}
-            okcal = keyed and kw_ == {"months"} and all(isinstance(parent(a_), ast.If) for a_ in augs)
+            # the fixed timedelta is added only when the calendar offset is not (months is None)
+            aug_guarded = all(isinstance(parent(a_), ast.If) for a_ in augs)
+            okcal = got_m == {"month": 1, "year": 12, "other": None} and kw_ == {"months"} and aug_guarded
+            fact = "%s; months added for a superior period of (month, year, other): %s" % (fact, got_m)
         else:
             okcal = False
     ctx.ob("FileSet._retrieve_time_coverage.rollover", okr, fact, "`if end < start:` (strict: an end equal to the start is not moved) the end moves by self._end_time_superior",
